@@ -74,13 +74,17 @@ C03_Step(S, c, cmd, R) ==
     /\ ("464" \in NumCodes(R, c)) => (c \notin DOMAIN R.st.conns /\ R.st.users = S.users)
 
 (* ---- C04: membership is one consistent relation (InvSym) seen alike by NAMES, WHO, WHOIS ---- *)
-StripPrefix(s) == IF Len(s) > 0 /\ Chr(s, 1) \in PrefixChars THEN Drop(s, 1) ELSE s
+RECURSIVE StripNickPrefix(_)
+StripNickPrefix(s) == IF Len(s) > 0 /\ Chr(s, 1) \in PrefixChars THEN StripNickPrefix(Drop(s, 1)) ELSE s
+RECURSIVE StripChanPrefix(_)
+StripChanPrefix(s) == IF Len(s) > 1 /\ Chr(s, 1) \in PrefixChars /\ Chr(s, 2) \in (PrefixChars \cup {"#"})
+                      THEN StripChanPrefix(Drop(s, 1)) ELSE s
 C04_Views(S, c, x) ==     \* for a member c of channel x: the three views list exactly the members
     LET n == NickOf(S, c)
-        names == {StripPrefix(m.a[3]) : m \in {y \in ToSet(NamesOut(S, c, x, TRUE)) : y.c = "353"}}
+        names == {StripNickPrefix(m.a[3]) : m \in {y \in ToSet(NamesOut(S, c, x, TRUE)) : y.c = "353"}}
         who == {m.a[4] : m \in {y \in ToSet(HWho(S, c, x)) : y.c = "352"}}
         whois == {u \in DOMAIN S.users :
-                    \E m \in ToSet(HWhois(S, c, <<>>, <<u>>)) : m.c = "319" /\ StripPrefix(m.a[2]) = x}
+                    \E m \in ToSet(HWhois(S, c, <<>>, <<u>>)) : m.c = "319" /\ StripChanPrefix(m.a[2]) = x}
         mem == Members(S.chans[x])
     IN n \in mem => /\ names = mem /\ who = mem
                     /\ ("s" \notin S.chans[x].flags => whois = mem)
